@@ -219,6 +219,8 @@ def ctor_defaults(repo: Repo, ci: ClassInfo) -> Dict[str, Any]:
     out: Dict[str, Any] = {}
     init = ci.methods.get("__init__")
     if init is not None:
+        from . import inline
+        init = inline.normalize(repo, ci, init)        # defaults set in private helpers of the constructor count as well
         for st in init.body:
             if isinstance(st, ast.Assign):
                 val = st.value
